@@ -123,3 +123,14 @@ pub assume_specification [ <Bytes as AsRef<[u8]>>::as_ref ] (b: &Bytes) -> (r: &
 
 pub assume_specification [ <BytesMut as PartialEq>::eq ] (a: &BytesMut, b: &BytesMut) -> (r: bool)
     ensures r == (bmview(a) == bmview(b));
+
+// ---------------- iterators handed to remove_insert by the crate itself ----------------
+#[verifier::reject_recursive_types(T)]
+#[verifier::external_type_specification]
+#[verifier::external_body]
+pub struct ExEmpty<T>(std::iter::Empty<T>);
+pub assume_specification<T> [ std::iter::empty::<T> ] () -> (r: std::iter::Empty<T>)
+    ensures
+        vstd::std_specs::iter::IteratorSpec::remaining(&r) == Seq::<T>::empty(),
+        vstd::std_specs::iter::IteratorSpec::obeys_prophetic_iter_laws(&r),
+        vstd::std_specs::iter::IteratorSpec::decrease(&r) is Some;
